@@ -3,9 +3,10 @@ namespace Url
 
 /-! # C19 for bracketed (IPv6 / IPvFuture) authorities
 
-`parse_url` re-brackets a host that contains `:` when it rebuilds the normalised string
-(`rebracket`).  This file proves the bracketed counterpart of `parse_canonical` and of
-`parseSplit_output`, and combines them with the un-bracketed development into `norm_idem_ascii`. -/
+`parse_url` puts the host back between brackets when the host part of the authority contained `[`
+(`rebracket`).  This file proves the bracketed counterpart of `parse_canonical`; `NormAll.lean` proves
+the counterpart of `parseSplit_output` and combines both with the un-bracketed development into
+`norm_idem_ascii`. -/
 
 /-- contract of the opaque IP-literal check (`ipaddress.ip_address`, the IPvFuture regex): what it
     accepts, it also accepts in the lower-cased spelling `parse_url` reports as the host name -/
